@@ -25,9 +25,9 @@ func checkC20(c *Ctx) {
 	c.Rule("C20/R1", "upload typestate: creating the upload registers, before any return, a deferred abort that fires iff the upload variable is non-nil; the variable is cleared only on the nil-error edge of Commit; the upload loop ends normally only on err == io.EOF exactly")
 	c.Rule("C20/R2", "writer pairing: after a successful NewWriter a deferred closure closes with the function's named error when it is non-nil and otherwise assigns Close's error to it; it is registered before any further return")
 	c.Rule("C20/R3", "no error is dropped on the upload path (storage/app, storage/db, storage/fs/local) except by the reviewed clean-up calls; in the upload functions a non-nil error from a progress call returns a non-nil error")
-	c.Rule("C20/R4", "methods of db.Upload execute SQL only through the upload's own transaction")
+	c.Rule("C20/R4", "methods of db.Upload execute SQL only through the upload's own transaction, and commit it only on paths where every earlier write of that method (flush, Exec) is known to have returned nil")
 	c.Rule("C20/R5", "ID allocation: latest-ID read and insert run in one transaction whose Commit error is checked and whose rollback is deferred; the records use a separate, later transaction; the ID parser's offset matches the formatter's separator")
-	c.Rule("C20/R6", "protocol tables: the form fields the client writes for files and commit are accepted by the server; the field it writes for abort is rejected")
+	c.Rule("C20/R6", "protocol tables: the form fields the client writes for files and commit are accepted by the server; the field it writes for abort is rejected; every part named \"file\" reaches the call that stores and indexes it (no path on which the form name can be \"file\" returns to the head of the part loop without it)")
 	c.Rule("C20/R7", "every in-repo fs.Writer.CloseWithError discards: it never publishes the file and, where the file already exists on disk, removes it")
 
 	c.Rule("C20/R8", "an upload ID is never handed out twice: the statement that creates the Uploads row is a plain INSERT (no REPLACE, no OR REPLACE/IGNORE, no ON CONFLICT/ON DUPLICATE KEY), so an ID that already exists is refused by the primary key instead of silently replacing the committed upload (and, through ON DELETE CASCADE, its records)")
@@ -983,6 +983,102 @@ func c20Tx(c *Ctx, p *Prog) {
 		})
 	}
 	c.Floor(R, "SQL executions in db.Upload methods", n, 3)
+	// commit only what was written: a Tx.Commit in an upload method is reached only when every earlier error-returning call
+	// of that method on the upload or its transaction/statements returned nil
+	nc := 0
+	for _, fn := range p.Funcs("storage/db") {
+		if fn.Signature.Recv() == nil || recvName(fn.Signature.Recv().Type()) != "Upload" {
+			continue
+		}
+		var commits, writes []*ssa.Call
+		eachInstr(fn, func(_ *ssa.BasicBlock, in ssa.Instruction) {
+			call, ok := in.(*ssa.Call)
+			if !ok {
+				return
+			}
+			co := calleeObj(&call.Call)
+			if co == nil {
+				return
+			}
+			sig := co.Type().(*types.Signature)
+			if sig.Recv() == nil {
+				return
+			}
+			rn := recvName(sig.Recv().Type())
+			isSQL := co.Pkg() != nil && co.Pkg().Path() == "database/sql"
+			switch {
+			case isSQL && rn == "Tx" && co.Name() == "Commit":
+				commits = append(commits, call)
+			case (isSQL && (rn == "Tx" || rn == "Stmt") && strings.HasPrefix(co.Name(), "Exec")) || (rn == "Upload" && co.Pkg() != nil && co.Pkg().Path() == stDBPkg):
+				// returns an error (alone or last)
+				res := sig.Results()
+				if res.Len() > 0 && isErrorType(res.At(res.Len()-1).Type()) {
+					writes = append(writes, call)
+				}
+			}
+		})
+		for _, cm := range commits {
+			for _, w := range writes {
+				if !instrDominates(w, cm) && !reachesInstr(w, cm) {
+					continue
+				}
+				nc++
+				// the error of w must be known nil at the commit
+				var errV ssa.Value = w
+				if tup, ok := w.Type().(*types.Tuple); ok {
+					errV = nil
+					for _, r := range *w.Referrers() {
+						if ex, ok := r.(*ssa.Extract); ok && ex.Index == tup.Len()-1 {
+							errV = ex
+						}
+					}
+				}
+				nilKnown := false
+				if errV != nil {
+					for _, f := range factsAt(cm.Block()) {
+						if bo, ok := f.Cond.(*ssa.BinOp); ok && (bo.X == errV || bo.Y == errV) {
+							if (bo.Op == token.NEQ && !f.True) || (bo.Op == token.EQL && f.True) {
+								nilKnown = true
+							}
+						}
+					}
+				}
+				co := calleeObj(&w.Call)
+				c.Check(nilKnown, R, fmt.Sprintf("%s:commit-after-%s", fnName(fn), co.Name()), p.pos(cm.Pos()), "the transaction is committed only when "+co.Name()+" returned nil",
+					"the transaction is committed on a path where the error of the preceding "+co.Name()+" is not known to be nil: when the final batch of records fails to be written the upload is committed with the records written so far, so a failed upload is partly queryable")
+			}
+		}
+	}
+	c.Floor(R, "writes preceding a commit in db.Upload methods", nc, 1)
+}
+
+// reachesInstr: b can execute after a (a's block reaches b's block, or both are in one block with a first).
+func reachesInstr(a, b ssa.Instruction) bool {
+	if a.Block() == b.Block() {
+		for _, in := range a.Block().Instrs {
+			if in == a {
+				return true
+			}
+			if in == b {
+				return false
+			}
+		}
+	}
+	seen := map[*ssa.BasicBlock]bool{}
+	work := append([]*ssa.BasicBlock(nil), a.Block().Succs...)
+	for len(work) > 0 {
+		x := work[len(work)-1]
+		work = work[:len(work)-1]
+		if seen[x] {
+			continue
+		}
+		seen[x] = true
+		if x == b.Block() {
+			return true
+		}
+		work = append(work, x.Succs...)
+	}
+	return false
 }
 
 // ---- R5 ----
@@ -1227,6 +1323,91 @@ func c20Protocol(c *Ctx, p *Prog) {
 		}
 	}
 	_ = reject
+	// every part named "file" is consumed: inside the loop over the parts, no path on which the form name can still be
+	// "file" returns to the loop head without passing the call that is handed the part
+	nLoops := 0
+	for _, fn := range p.Funcs("storage/app") {
+		var formName *ssa.Call
+		eachInstr(fn, func(_ *ssa.BasicBlock, in ssa.Instruction) {
+			if call, ok := in.(*ssa.Call); ok && objIs(calleeObj(&call.Call), "mime/multipart", "Part", "FormName") {
+				formName = call
+			}
+		})
+		if formName == nil {
+			continue
+		}
+		part := formName.Call.Args[0]
+		var lp *loopInfo
+		for _, l := range naturalLoops(fn) {
+			if l.Blocks[formName.Block()] && (lp == nil || len(l.Blocks) < len(lp.Blocks)) {
+				lp = l
+			}
+		}
+		if lp == nil {
+			continue
+		}
+		// consumers: calls in the loop that receive the part (possibly as an interface) and are not its own methods
+		consumer := map[*ssa.BasicBlock]bool{}
+		nCons := 0
+		for b := range lp.Blocks {
+			for _, in := range b.Instrs {
+				call, ok := in.(*ssa.Call)
+				if !ok {
+					continue
+				}
+				for i, a := range call.Call.Args {
+					if stripIface(a) == part && !(i == 0 && call.Call.Signature().Recv() != nil && recvName(call.Call.Signature().Recv().Type()) == "Part") {
+						consumer[b] = true
+						nCons++
+					}
+				}
+			}
+		}
+		if nCons == 0 {
+			c.Undecided(R, "parts:consumer", p.pos(fn.Pos()), "no call in the loop over the parts receives the part")
+			continue
+		}
+		nLoops++
+		facts := constFacts(fn, func(v ssa.Value) bool { return v == formName })
+		mayBeFile := func(b *ssa.BasicBlock) bool {
+			st := facts[b]
+			if st.Bot {
+				return false
+			}
+			if st.Top {
+				return !st.Not["file"]
+			}
+			return st.In["file"]
+		}
+		skipAt := ""
+		seen := map[*ssa.BasicBlock]bool{}
+		work := []*ssa.BasicBlock{formName.Block()}
+		for len(work) > 0 && skipAt == "" {
+			b := work[len(work)-1]
+			work = work[:len(work)-1]
+			if seen[b] || !lp.Blocks[b] || consumer[b] || !mayBeFile(b) {
+				continue
+			}
+			seen[b] = true
+			for si, s := range b.Succs {
+				if !edgeMayBe(b, si, formName, "file") {
+					continue
+				}
+				if s == lp.Header {
+					skipAt = p.pos(b.Instrs[len(b.Instrs)-1].Pos())
+					if skipAt == "" {
+						for i := len(b.Instrs) - 1; i >= 0 && skipAt == ""; i-- {
+							skipAt = p.pos(b.Instrs[i].Pos())
+						}
+					}
+					break
+				}
+				work = append(work, s)
+			}
+		}
+		c.Check(skipAt == "", R, fnName(fn)+":every-file-part-consumed", p.pos(fn.Pos()), "a part named \"file\" always reaches the call that stores and indexes it", "a part whose form name is \"file\" can be skipped (the loop continues near "+skipAt+" without handing the part on): the upload succeeds although that file is neither stored nor indexed, and a file without benchmark lines no longer fails the upload")
+	}
+	c.Floor(R, "loops over multipart parts", nLoops, 1)
 }
 
 func factsMention(b *ssa.BasicBlock, v ssa.Value) bool {
@@ -1329,4 +1510,51 @@ func c20InsertOnly(c *Ctx, p *Prog) {
 		})
 	}
 	c.Floor(R, "statements inserting into Uploads", n, 1)
+}
+
+// edgeMayBe: taking the si-th successor edge of b is compatible with the tracked string value being want (the edge is
+// excluded only when b branches on an (in)equality test of the tracked value against a constant that rules it out).
+func edgeMayBe(b *ssa.BasicBlock, si int, tracked ssa.Value, want string) bool {
+	ifi, ok := b.Instrs[len(b.Instrs)-1].(*ssa.If)
+	if !ok {
+		return true
+	}
+	cond := ifi.Cond
+	neg := false
+	for {
+		if u, ok := cond.(*ssa.UnOp); ok && u.Op == token.NOT {
+			cond, neg = u.X, !neg
+			continue
+		}
+		break
+	}
+	bo, ok := cond.(*ssa.BinOp)
+	if !ok || (bo.Op != token.EQL && bo.Op != token.NEQ) {
+		return true
+	}
+	var k string
+	switch {
+	case bo.X == tracked:
+		s, ok := constString(bo.Y)
+		if !ok {
+			return true
+		}
+		k = s
+	case bo.Y == tracked:
+		s, ok := constString(bo.X)
+		if !ok {
+			return true
+		}
+		k = s
+	default:
+		return true
+	}
+	equalOnEdge := (bo.Op == token.EQL) == (si == 0)
+	if neg {
+		equalOnEdge = !equalOnEdge
+	}
+	if equalOnEdge {
+		return k == want
+	}
+	return k != want
 }
